@@ -64,9 +64,9 @@ def candidates(m):
     Yields (operation tag, derived model); the tag is a predicate over the (base, derived) pair only."""
     for p, n in nodes_of(m):
         where = ('root' if not p else 'inner') + ('_' + n[0] if n[0] != 'e' else '_leaf')
-        for occ in cm.OCC9:
+        for occ in cm.OCC9 + [(0, 0)]:
             if occ != (n[2], n[3]):
-                yield 'occ:' + where, replace_at(m, p, (n[0], n[1]) + occ)
+                yield ('occ:' if occ != (0, 0) else 'prohibit:') + where, replace_at(m, p, (n[0], n[1]) + occ)
         if n[0] != 'e':
             for i in range(len(n[1])):
                 if len(n[1]) > 1:
@@ -78,9 +78,11 @@ def candidates(m):
                 for c in n[1]:
                     yield 'pick_branch', replace_at(m, p, ('seq', [c], n[2], n[3]))
         else:
-            for leaf in 'abcwW':
+            for leaf in 'abcwWlL':
                 if leaf != n[1]:
-                    yield 'rename:' + ('from_wildcard' if n[1] in 'wW' else 'to_wildcard' if leaf in 'wW' else 'element'), \
+                    yield 'rename:' + ('wildcard_to_wildcard' if (n[1] in cm.WILD and leaf in cm.WILD) else
+                                       'from_wildcard' if n[1] in cm.WILD else 'to_wildcard' if leaf in cm.WILD
+                                       else 'element'), \
                         replace_at(m, p, ('e', leaf, n[2], n[3]))
 
 
@@ -95,8 +97,14 @@ def pair_classes(ver, b, d, op):
     cl = []
     if has_single_item_group(b) or has_single_item_group(d):
         cl.append('single-item-group')
-    if ver == '11' and op in ('occ:root_cho', 'occ:inner_cho', 'occ:root_seq', 'occ:inner_seq'):
+    if ver == '11' and op in ('occ:root_cho', 'occ:inner_cho', 'occ:root_seq', 'occ:inner_seq', 'prohibit:root_cho',
+                              'prohibit:inner_cho', 'prohibit:root_seq', 'prohibit:inner_seq'):
         cl.append('xsd11-group-occurrence')
+    if op.startswith('prohibit:') and op.endswith('_leaf'):
+        # which leaf was prohibited: the one whose occurrence differs
+        for (p1, n1), (p2, n2) in zip(nodes_of(b), nodes_of(d)):
+            if n1[0] == 'e' and n2[0] == 'e' and (n1[2], n1[3]) != (n2[2], n2[3]) and n1[1] in cm.WILD and n1[2] >= 1:
+                cl.append('prohibited-required-wildcard')
     return cl
 
 
@@ -155,7 +163,7 @@ def judge_content(ver, b, d, st, via_redefine=False, op='?'):
         w = cm.includes(D, A)
         cands = [w] if w is not None else []
         # plus every short word the derived automaton accepts and the base rejects
-        for x in cm.words('abmf', 3):
+        for x in cm.words('abmfz', 3):
             if D.accepts(x) and not A.accepts(x) and x not in cands:
                 cands.append(x)
         for w in cands[:6]:
@@ -300,6 +308,8 @@ def shards(tier, seed):
     for ver in ('10', '11'):
         for k in range(5):
             out.append(('content', ver, k, tier, seed))
+        for k in range(4):
+            out.append(('scope', ver, k, tier, seed))
         out.append(('facets', ver, tier, seed))
         out.append(('attrs', ver, tier, seed))
         out.append(('redefine', ver, tier, seed))
@@ -309,12 +319,24 @@ def shards(tier, seed):
 def run_shard(desc):
     from hypothesis import strategies as hst
     st = core.Stats()
+    if desc[0] == 'scope':
+        # bases drawn from the enumerated small scope (depth 2: a nested group inside a group), every candidate
+        _, ver, k, tier, seed = desc
+        import random as _r
+        rnd = _r.Random(core.derive_seed(seed, 'C14scope', ver, k))
+        pool = [m for m in cm.scope(names='bc', occs=cm.OCC5, max_leaves=3) if cm.depth(m) == 2]
+        for b in rnd.sample(pool, 160 if tier == 'thorough' else 30):
+            for op, d in candidates(b):
+                for r in judge_content(ver, b, d if d[0] != 'e' else ('seq', [d], 1, 1), st, False, op):
+                    core.report(st, PROPERTY, r)
+        st.sample({'ver': ver, 'bases from': 'small scope, depth 2', 'example': cm.show(pool[len(pool) // 3])})
+        return st
     if desc[0] in ('content', 'redefine'):
         ver, tier, seed = desc[1], desc[-2], desc[-1]
         k = desc[2] if desc[0] == 'content' else 99
         via = desc[0] == 'redefine'
         n = (60 if tier == 'thorough' else 10) if not via else (25 if tier == 'thorough' else 5)
-        strat = cm.st_model('abcwW' if not via else 'abc', cm.OCC9, max_kids=3).filter(
+        strat = cm.st_model('abcwWL' if not via else 'abc', cm.OCC9, max_kids=3).filter(
             lambda m: cm.depth(m) <= 2 and cm.nleaves(m) <= 5)
 
         def body(b, st_):
